@@ -6,7 +6,8 @@
 EXTENDS Contracts
 VARIABLE hist
 \* steps that end a transaction carry the committed view the specification predicts after them
-Entry == IF phase' = "idle" /\ last'.op # "init" THEN last' @@ [com |-> ObsOf(com')] ELSE last'
+\* ... and steps inside a transaction carry the in-transaction view after them
+Entry == IF phase' = "idle" /\ last'.op # "init" THEN last' @@ [com |-> ObsOf(com')] ELSE last' @@ [view |-> TxView']
 TransInit == Init /\ hist = << >>
 TransNext == Next /\ hist' = Append(hist, Entry)
 TransSpec == TransInit /\ [][TransNext]_<<vars, hist>>
